@@ -72,19 +72,26 @@ func GenRPC(rng *rand.Rand, id string, o ScriptOpts) *RPCSpec {
 	var hpre, hpost []Op
 	if o.Meta {
 		spec.ReqMD = genMD(rng, "req")
-		switch rng.Intn(4) {
+		// several header / trailer calls draw their keys from the same small pool, so that a key is
+		// often filled over more than one call (the values must arrive in call order)
+		via := func() string { return []string{"", "", "ctx"}[rng.Intn(3)] }
+		switch rng.Intn(5) {
 		case 0:
 			hpre = append(hpre, Op{K: "sethdr", MD: genMD(rng, "h")})
 		case 1:
-			hpre = append(hpre, Op{K: "sethdr", MD: genMD(rng, "h")}, Op{K: "sendhdr", MD: genMD(rng, "g")})
+			hpre = append(hpre, Op{K: "sethdr", MD: genMD(rng, "h"), Name: via()}, Op{K: "sendhdr", MD: genMD(rng, "h"), Name: via()})
 		case 2:
 			hpre = append(hpre, Op{K: "sendhdr", MD: genMD(rng, "h")})
+		case 3:
+			hpre = append(hpre, Op{K: "sethdr", MD: genMD(rng, "h"), Name: via()}, Op{K: "sethdr", MD: genMD(rng, "h"), Name: via()}, Op{K: "sethdr", MD: genMD(rng, "h"), Name: via()})
 		}
-		switch rng.Intn(3) {
+		switch rng.Intn(4) {
 		case 0:
 			hpost = append(hpost, Op{K: "settrl", MD: genMD(rng, "t")})
 		case 1:
-			hpost = append(hpost, Op{K: "settrl", MD: genMD(rng, "t")}, Op{K: "settrl", MD: genMD(rng, "u")})
+			hpost = append(hpost, Op{K: "settrl", MD: genMD(rng, "t"), Name: via()}, Op{K: "settrl", MD: genMD(rng, "t"), Name: via()})
+		case 2:
+			hpost = append(hpost, Op{K: "settrl", MD: genMD(rng, "t"), Name: via()}, Op{K: "settrl", MD: genMD(rng, "t"), Name: via()}, Op{K: "settrl", MD: genMD(rng, "t"), Name: via()})
 		}
 		spec.UseHeaderOpt = rng.Intn(2) == 0
 		spec.UseTrailerOpt = rng.Intn(2) == 0
